@@ -976,6 +976,19 @@ def r07_8(ctx: Ctx, need: str = "contains-seed"):
     return obs
 
 
+def r07_10(ctx: Ctx):
+    """R07.10 start metaepochs stay consistent because the tree's metaepoch counter only ever grows: 0 in the constructor, `+= 1`
+    in run_step, no other writer (R05.2) - a counter reset by run() puts existing demes' started_at in the tree's future and
+    lets later children start before their parents."""
+    from . import c05  # late import
+
+    out = []
+    for o in c05.r05_2(ctx):
+        o.rule = "R07.10"
+        out.append(o)
+    return out
+
+
 def r07_9(ctx: Ctx):
     """R07.9 a candidate stays under the deme that proposed it: filters only ever shrink `candidates[deme].individuals` (R10.2) -
     a filter that re-adds or moves candidates can file a seed under a deme whose population never held it, and that deme then
@@ -999,4 +1012,5 @@ RULES = [
     ("R07.7", r07_7, 8),
     ("R07.8", r07_8, 9),
     ("R07.9", r07_9, 5),
+    ("R07.10", r07_10, 2),
 ]
